@@ -1,5 +1,7 @@
 #!/usr/bin/env python3
 """C10 — comments are appended, never rewrite, and move the score by at most one.
+Entries stamped (Modified) earlier than, at and LATER than the clock of the comment (op 4 of the driver plants the stamp, absolute or
+relative to its own clock): the score moves and Modified becomes the article file's own mtime (stat by the driver) whatever was stored.
 Proofs in coq/Props/C10.v; correspondence of the extracted model with ptt.Recommend on a planted board;
 direct predicates on the implementation's own outputs after every step: the article file only grew by the
 returned line, the line has the comment format, .DIR changed only in bytes 28..31 and 33 of the addressed
@@ -19,12 +21,12 @@ DELTA = {1: 1, 2: -1}
 FILE_MARKED, FILE_SOLVED = 0x02, 0x10
 
 
-def entry(i, score, filemode, rng, first=b"M"):
+def entry(i, score, filemode, rng, first=b"M", modified=None):
     t = 1607200000 + 100 * i
     name = first + b".%010d.A.%03X" % (t, (i * 291 + 13) % 4096)
     r = bytearray(REC)
     r[0:len(name)] = name
-    r[28:32] = struct.pack("<i", t - 1)
+    r[28:32] = struct.pack("<i", t - 1 if modified is None else modified)
     r[32] = rng.choice([0, 0x5A, 0xFF])            # Pad
     r[33] = score & 0xFF
     r[34:39] = b"SYSOP"
@@ -43,8 +45,11 @@ def toks(bs):
 
 
 class Scenario:
-    def __init__(self, rng, n, target, score, filemode=0, link=False, align=0, iplog=0, norec=0, uid=b"A1", ip=b"192.168.0.1", art=None):
+    def __init__(self, rng, n, target, score, filemode=0, link=False, align=0, iplog=0, norec=0, uid=b"A1", ip=b"192.168.0.1", art=None, stamp=None):
         self.align, self.iplog, self.norec, self.uid, self.ip = align, iplog, norec, uid, ip
+        # stamp = (rel, v): the Modified field of the addressed entry is v (rel = 0) or the driver's clock reading when it plants
+        # the board + v seconds (rel = 1); the driver reports the stamp it planted -> stamp_abs
+        self.stamp, self.stamp_abs = stamp, None
         self.target, self.score, self.filemode, self.link = target, score, filemode, link
         recs = []
         for i in range(n):
@@ -58,8 +63,10 @@ class Scenario:
         self.steps = []
 
     def line(self, obs=None):
-        head = "1|%d %d %d|%s|%s|%s|%s|%s" % (self.align, self.iplog, self.norec, toks(self.dir), toks(self.name.ljust(28, b"\0")),
-                                              toks(self.art), toks(self.ip), toks(self.uid))
+        head = "%d|%d %d %d|%s|%s|%s|%s|%s" % (4 if self.stamp else 1, self.align, self.iplog, self.norec, toks(self.dir), toks(self.name.ljust(28, b"\0")),
+                                               toks(self.art), toks(self.ip), toks(self.uid))
+        if self.stamp:       # implementation driver: [rel v]; model: [the stamp that was planted]
+            head += "|%d" % self.stamp_abs if obs is not None else "|%d %d" % self.stamp
         s = head + "".join("|" + toks([ct] + list(txt)) for ct, txt in self.steps)
         if obs is not None:
             s += "|99" + "".join("|" + toks(o) for o in obs)
@@ -70,7 +77,7 @@ class Scenario:
 
 
 def parse_steps(res):
-    """[('ok', line, mtime, preserved, appended, diff, score) | ('err', code, artchg, dirchg)]"""
+    """[('ok', line, mtime, preserved, appended, diff, score, the article file's own mtime) | ('err', code, artchg, dirchg)]"""
     t = res.split()
     if t[0] != "0":
         return None
@@ -87,8 +94,8 @@ def parse_steps(res):
         app = bytes(int(x) for x in t[pos:pos + na]); pos += na
         nd = int(t[pos]); pos += 1
         diff = [(int(t[pos + 2 * k]), int(t[pos + 2 * k + 1])) for k in range(nd)]; pos += 2 * nd
-        score = int(t[pos]); pos += 1
-        out.append(("ok", line, mtime, preserved, app, diff, score))
+        score, fmtime = int(t[pos]), int(t[pos + 1]); pos += 2
+        out.append(("ok", line, mtime, preserved, app, diff, score, fmtime))
     assert pos == len(t)
     return out
 
@@ -135,9 +142,10 @@ TYPE_NAME = {1: "push", 2: "boo", 3: "arrow"}
 
 class BoardSession:
     """a planted board with several commentable articles, several commenters, all comment-related attributes"""
-    def __init__(self, rng, n, targets, flags, pause, users, ip=b"10.1.2.3", arts=None):
+    def __init__(self, rng, n, targets, flags, pause, users, ip=b"10.1.2.3", arts=None, stamps=None):
         # targets: [(entry index, score, filemode, link)]; flags: (align, iplog, norec, noboo, nofast); users: [(uid number, sysop, id)]
         self.flags, self.pause, self.users, self.ip, self.targets = tuple(flags), pause, users, ip, targets
+        self.stamps = stamps or {}      # entry index -> Modified stamp planted (absolute; e.g. 2033 or 2038: ahead of every clock reading)
         self.align, self.iplog, self.norec = flags[0], flags[1], flags[2]
         recs, self.names = [], []
         tmap = {t[0]: t for t in targets}
@@ -145,7 +153,7 @@ class BoardSession:
         for i in range(n):
             if i in tmap:
                 _, score, fm, link = tmap[i]
-                r, name = entry(i, score, fm, rng, b"L" if link else b"M")
+                r, name = entry(i, score, fm, rng, b"L" if link else b"M", modified=(stamps or {}).get(i))
                 byidx[i] = name
             else:
                 r, _ = entry(i, rng.randrange(-100, 101), rng.choice([0, 0, 2, 16, 18, 1]), rng)
@@ -181,13 +189,14 @@ class BoardSession:
                 out.append("3 1 0 0")
                 continue
             new = clamp(score[a] + DELTA.get(ct, 0))
-            out.append("0 %d %d %d 1 0 0" % (ct if ct in MARK else 0, score[a], new))
+            out.append("0 %d %d %d 1 0 0 1" % (ct if ct in MARK else 0, score[a], new))
             score[a] = new
         return out
 
     def describe(self, steps=None):
         steps = self.steps if steps is None else steps
-        return "board attrs aligned=%d iplog=%d nocomment=%d noboo=%d nofastrecommend=%d pause=%d; " % (self.flags + (self.pause,)) + \
+        ahead = "".join("entry %d carries the Modified stamp %d; " % kv for kv in sorted(self.stamps.items()))
+        return "board attrs aligned=%d iplog=%d nocomment=%d noboo=%d nofastrecommend=%d pause=%d; " % (self.flags + (self.pause,)) + ahead + \
                ", ".join("%s by %s on article %d" % (TYPE_NAME.get(ct, "type %d" % ct), self.users[u][2].decode("latin1"), a) for u, a, ct, _ in steps[-6:])
 
 
@@ -214,8 +223,8 @@ def parse_board_steps(res):
         app = bytes(int(x) for x in t[pos:pos + na]); pos += na
         nd = int(t[pos]); pos += 1
         diff = [(int(t[pos + 2 * k]), int(t[pos + 2 * k + 1])) for k in range(nd)]; pos += 2 * nd
-        score, others = int(t[pos]), int(t[pos + 1]); pos += 2
-        out.append(("ok", line, mtime, preserved, app, diff, score, others))
+        score, fmtime, others = int(t[pos]), int(t[pos + 1]), int(t[pos + 2]); pos += 3
+        out.append(("ok", line, mtime, preserved, app, diff, score, others, fmtime))
     assert pos == len(t)
     return out
 
@@ -227,13 +236,106 @@ def split_digest(res, n):
         return None
     out, pos = [], 2
     for _ in range(n):
-        w = 4 if t[pos] == "3" else 7
+        w = 4 if t[pos] == "3" else 8
         out.append(" ".join(t[pos:pos + w])); pos += w
     return out if pos == len(t) else None
 
 
 def clamp(x):
     return max(-100, min(100, x))
+
+
+class TwoBoards:
+    """op 5: two boards (WhoAmI, SYSOP) of one process; board b's index holds the entries idx[b] (entry numbers of entry(): the name
+    depends on the number only, so a number present in both boards is the SAME article file name, at different positions)"""
+    def __init__(self, rng, idx, uid=b"A1", ip=b"10.9.8.7"):
+        self.idx, self.uid, self.ip = idx, uid, ip
+        self.scores = [[rng.choice([-100, -99, 0, 7, 99, 100, rng.randrange(-100, 101)]) for _ in ix] for ix in idx]
+        self.dirs = [b"".join(entry(i, sc, rng.choice([0, 0, 1, 2, 16]), rng)[0] for i, sc in zip(ix, scs)) for ix, scs in zip(idx, self.scores)]
+        self.arts = [[b"board %d article %d\n--\n" % (b, i) for i in ix] for b, ix in enumerate(idx)]
+        self.steps = []        # (board, position in that board's index, type, text)
+
+    def line(self, steps=None):
+        steps = self.steps if steps is None else steps
+        g = ["5", toks(self.dirs[0]), toks(self.dirs[1]), toks(self.ip), toks(self.uid), "%d %d" % (len(self.idx[0]), len(self.idx[1]))]
+        g += [toks(a) for a in self.arts[0]] + [toks(a) for a in self.arts[1]]
+        g += [toks([b, j, ct] + list(txt)) for b, j, ct, txt in steps]
+        return "|".join(g)
+
+    def expected_digest(self, steps=None):
+        steps = self.steps if steps is None else steps
+        score = [list(x) for x in self.scores]
+        out = []
+        for b, j, ct, _ in steps:
+            new = clamp(score[b][j] + DELTA.get(ct, 0))
+            out.append("0 %d %d %d 1 0 0 0 0 1" % (ct if ct in MARK else 0, score[b][j], new))
+            score[b][j] = new
+        return out
+
+    def describe(self, steps=None):
+        steps = self.steps if steps is None else steps
+        nm = lambda b, j: entry(self.idx[b][j], 0, 0, __import__("random").Random(0))[1].decode()
+        return "WhoAmI holds entries %s, SYSOP holds entries %s (same number = same article file name); " % (self.idx[0], self.idx[1]) + \
+               ", ".join("%s on %s/%s (position %d)" % (TYPE_NAME.get(ct, "type %d" % ct), ("WhoAmI", "SYSOP")[b], nm(b, j), j) for b, j, ct, _ in steps[-6:])
+
+
+TWO_DOC = ("digest per step: status, type mark of the returned line, score of the addressed entry before, after, the addressed article of the addressed board grew by exactly "
+           "the returned line, other article files of that board changed, article files of the OTHER board changed, .DIR offsets outside Modified/Recommend of the addressed "
+           "entry, the OTHER board's .DIR changed, Modified = returned mtime = the file's own mtime")
+
+
+def split_two(res, n):
+    t = res.split()
+    if t[:1] != ["0"] or len(t) < 2 or int(t[1]) != n:
+        return None
+    out, pos = [], 2
+    for _ in range(n):
+        w = 3 if t[pos] == "3" else 10
+        out.append(" ".join(t[pos:pos + w])); pos += w
+    return out if pos == len(t) else None
+
+
+def judge_two(c, impl, tb, dg, label):
+    """direct predicate on a two-board session: the digest of the implementation's run against the reference written here; shrunk replay"""
+    def digest(st):
+        r = vf.run_impl(impl, "C10", [tb.line(st)], deadline_ms=120000)[0]
+        return split_two(r, len(st)) if r.split()[:1] == ["0"] else None
+
+    def bad(st, d):
+        if d is None:
+            return 0
+        for k, (e, g) in enumerate(zip(tb.expected_digest(st), d)):
+            if e != g:
+                return k
+        return None
+    k = bad(tb.steps, dg)
+    if k is None:
+        for (b, j, ct, _), d in zip(tb.steps, dg):
+            c.nontrivial(("two-boards", b, ct, tb.idx[b][j] in tb.idx[1 - b], tb.idx[b][j] in tb.idx[1 - b] and tb.idx[1 - b].index(tb.idx[b][j]) != j))
+        return
+    if "cross-board" in [v[0] for v in c.violations]:
+        return
+    steps, d = tb.steps[:k + 1], dg
+    budget, i = 16, len(steps) - 2
+    d = digest(steps)
+    if bad(steps, d) is None:          # not reproduced by this session alone in a fresh process: keep the whole history
+        steps, d = tb.steps, dg
+    else:
+        while i >= 0 and budget > 0:
+            trial = steps[:i] + steps[i + 1:]
+            budget -= 1
+            d2 = digest(trial)
+            k2 = bad(trial, d2)
+            if k2 is not None:
+                steps, d = trial[:k2 + 1], (d2[:k2 + 1] if d2 else None)
+                i = min(i, len(steps) - 1)
+            i -= 1
+        d = digest(steps)
+    kk = bad(steps, d)
+    exp = tb.expected_digest(steps)
+    c.violation("cross-board", "%s: a comment on one board does not have the outcome its own type and the addressed entry of THAT board determine: step %s got [%s], expected [%s]; %s [%s]"
+                % (label, kk, d[kk] if d and kk is not None else "no digest", exp[kk] if kk is not None else "", tb.describe(steps), TWO_DOC),
+                {"cases": [tb.line(steps)], "expected": "0 %d " % len(steps) + " ".join(exp), "got": "0 %d " % len(steps) + " ".join(d) if d else "no digest"})
 
 
 def main():
@@ -250,19 +352,31 @@ def main():
         vf.ipc_cleanup()
     c.finish(rule="every start score in [-100,100] planted in a scratch .DIR x one comment of every type (push, boo, arrow, and two types without a mark) on plain, "
                   "aligned and IP-logging boards; PRNG(seed) sequences of <= 40 comments on three articles (different positions in the index, different contents) with texts "
-                  "of 0..120 bytes incl. DBCS lead/trail bytes; the three refusal conditions and their near misses; board sessions: all 32 combinations of the "
+                  "of 0..120 bytes incl. DBCS lead/trail bytes; the three refusal conditions and their near misses; the addressed entry stamped (Modified) earlier than, at and "
+                  "LATER than the clock of the comment: 7 absolute stamps and 11 stamps relative to the driver's clock (-1 day .. +1 s .. +1 year) x 3 types x 4 scores, and "
+                  "PRNG(seed) stamps with sequences of <= 11 comments; board sessions (one entry stamped 2033/2038 in each): all 32 combinations of the "
                   "comment-related board attributes (aligned, IP log, no-comment, no-boo, no-fast-recommend) x FastRecommendPause {0,1,60,255} with 3 articles x 3 commenters "
                   "(different uid numbers, one with PERM_SYSOP) commenting back to back, and PRNG(seed) histories of <= 40 comments by 2-4 commenters on 2-4 articles "
-                  "(locked and link entries among them) with random attributes and pauses; every history is run twice (full observation, digest). A step is non-trivial if it "
+                  "(locked and link entries among them) with random attributes and pauses; every history is run twice (full observation, digest); two boards (WhoAmI, SYSOP) "
+                  "of one driver process planted with overlapping entry sets (6 layouts + PRNG(seed) repeats: the same article file name at different index positions), comments "
+                  "alternating between the boards on the common names plus 4-15 random ones, digest against the reference. A step is non-trivial if it "
                   "is a distinct (start score, type, board flags, text) accepted comment, a distinct refusal class, or in a board session a distinct (attributes, pause class, "
                   "type, saturated, what the previous step was: type / same commenter / same article)",
-             assumptions=["the clock string of the line and the article's mtime after the append are observed from the implementation and fed to the model",
+             assumptions=["the clock string of the line is observed from the implementation; the article file's mtime after the append is read by the driver itself (stat after the "
+                          "step) - both are fed to the model, and the predicate mtime-source requires the returned mtime and the entry's Modified to equal that stat value",
+                          "clock behind a stored stamp: produced by planting stamps ahead of the driver's clock reading (and absolute stamps of 2033/2038), not by stepping the host clock; "
+                          "C10_clock_behind_stamp / C10_modified_is_file_mtime are theorems about the model for every stamp and every mtime, the tie to the code on such entries is validation "
+                          "(correspondence + predicates on the planted cases). The relative stamps make the case line clock-relative, never the verdict: on the unchanged tree the outcome "
+                          "does not depend on the stamp",
                           "the index entry is found by name; cmsys.GetRecord/FindRecordStartIdx are the subject of C06 (names in the planted .DIR are unique and sorted by time)",
                           "permission checks before the refusal conditions (C07/C08) are passed by the driver's user; ptt.Recommend is called directly (bbs.CreateComment cannot address a link entry by article id)",
                           "sequential comments only: the non-blocking flock retry path and concurrent commenters are outside this check",
                           "board sessions issue their comments back to back (milliseconds apart) in one driver process, one board (bid 10); nothing in the verdict depends on the "
                           "clock: on the unchanged tree the outcome of a comment is a function of its type and the addressed entry. A rule that would need comments more than "
-                          "a pause apart to show (minutes of waiting) is not exercised"])
+                          "a pause apart to show (minutes of waiting) is not exercised",
+                          "two boards (op 5): validation only - no model and no theorem covers two boards; the digest (files and both indexes read straight from the disk before and "
+                          "after every step) is compared with the reference written in the check. Two boards, one process, one commenter with PERM_SYSOP; more boards, board "
+                          "copies made while the process runs and the look-up itself (cmsys.GetRecord, C06) are outside"])
 
 
 def judge(c, sc, steps, label):
@@ -271,6 +385,8 @@ def judge(c, sc, steps, label):
     allowed = set(range(base + 28, base + 32)) | {base + 33}
     score = sc.score
     cur_dir = bytearray(sc.dir)
+    if sc.stamp:
+        cur_dir[base + 28:base + 32] = struct.pack("<i", sc.stamp_abs)
     case = [sc.line()]
     for (ct, text), st in zip(sc.steps, steps):
         if sc.refused():
@@ -284,7 +400,8 @@ def judge(c, sc, steps, label):
             continue
         if st[0] == "err":
             continue          # not a statement about C10 ("a successful comment ..."); the correspondence reports it
-        _, line, mtime, preserved, app, diff, after = st
+        _, line, mtime, preserved, app, diff, after, fmtime = st
+        stored = struct.unpack("<i", bytes(cur_dir[base + 28:base + 32]))[0]          # the stamp the entry carried before this comment
         if not preserved:
             c.violation("rewrite", "%s: earlier bytes of the article file changed" % label, {"cases": case, "got": repr(st)[:300]})
         elif app != line:
@@ -307,6 +424,13 @@ def judge(c, sc, steps, label):
             c.violation("score", "%s: score %d, comment type %d -> %d (expected %d)" % (label, score, ct, after, want), {"cases": case, "expected": want, "got": after})
         if struct.unpack("<i", bytes(cur_dir[base + 28:base + 32]))[0] != mtime:
             c.violation("mtime", "%s: Modified of the entry is not the article's modification time" % label, {"cases": case, "got": repr(diff)[:200]})
+        now_stamp = struct.unpack("<i", bytes(cur_dir[base + 28:base + 32]))[0]
+        if mtime != fmtime or now_stamp != fmtime:
+            c.violation("mtime-source", "%s: after a successful comment the entry's Modified (%d) / the returned mtime (%d) is not the article file's own modification time (%d); "
+                        "the entry carried the stamp %d before the comment (%s the file's mtime)"
+                        % (label, now_stamp, mtime, fmtime, stored, "LATER than" if stored > fmtime else "not later than"), {"cases": case, "expected": fmtime, "got": [now_stamp, mtime]})
+        if sc.stamp:
+            c.nontrivial(("stamp", (stored > fmtime) - (stored < fmtime), ct, score in (-100, 100)))
         c.nontrivial(("step", score, ct, sc.align, sc.iplog, bytes(text)))
         score = after
 
@@ -366,7 +490,7 @@ def board_violation(c, impl, key, desc, bs, upto):
 
 DEFERRED = []
 DIGEST_DOC = ("digest per step: status, type mark of the appended line, score before, score after, grew by the returned line, "
-              "other article files changed, .DIR offsets outside Modified/Recommend")
+              "other article files changed, .DIR offsets outside Modified/Recommend, Modified of the entry = returned mtime = the article file's own mtime")
 
 
 def flush_deferred(c, batch):
@@ -397,8 +521,9 @@ def judge_board(c, impl, bs, steps, dg, label):
             continue
         if st[0] == "err":
             continue          # "a successful comment ..."; the correspondence and the digest comparison report it
-        _, line, mtime, preserved, app, diff, after, others = st
+        _, line, mtime, preserved, app, diff, after, others, fmtime = st
         base = bs.targets[a][0] * REC
+        stored = struct.unpack("<i", bytes(cur_dir[base + 28:base + 32]))[0]
         allowed = set(range(base + 28, base + 32)) | {base + 33}
         if not preserved:
             board_violation(c, impl, "rewrite", "%s: earlier bytes of the article file changed" % label, bs, k)
@@ -430,6 +555,12 @@ def judge_board(c, impl, bs, steps, dg, label):
                             % (label, score[a], TYPE_NAME.get(ct, "comment of type %d" % ct), who, after, want, bs.describe(bs.steps[:k + 1])), bs, k)
         if struct.unpack("<i", bytes(cur_dir[base + 28:base + 32]))[0] != mtime:
             board_violation(c, impl, "mtime", "%s: Modified of the entry is not the article's modification time" % label, bs, k)
+        now_stamp = struct.unpack("<i", bytes(cur_dir[base + 28:base + 32]))[0]
+        if mtime != fmtime or now_stamp != fmtime:
+            board_violation(c, impl, "mtime-source", "%s: after a successful comment the entry's Modified (%d) / the returned mtime (%d) is not the article file's own modification "
+                            "time (%d); the entry carried the stamp %d before the comment" % (label, now_stamp, mtime, fmtime, stored), bs, k)
+        if stored > fmtime:
+            c.nontrivial(("board-stamp-ahead", ct, score[a] in (-100, 100)))
         prev = bs.steps[k - 1] if k else None
         c.nontrivial(("board-step", bs.flags, min(bs.pause, 2), ct, score[a] in (-100, 100), prev and (prev[2], prev[0] == u, prev[1] == a)))
         score[a] = after
@@ -446,7 +577,7 @@ def observations(steps):
     for st in steps:
         if st[0] == "ok":
             line = st[1]
-            obs.append(list(line[-12:-1]) + [st[2]])
+            obs.append(list(line[-12:-1]) + [st[-1]])       # the clock string of the line, the article file's own mtime (stat by the driver)
         else:
             obs.append([0] * 11 + [0])
     return obs
@@ -476,6 +607,10 @@ def run(c, rng, thorough, impl, model):
                 continue
             if st != "0":
                 raise SystemExit("C10: bad case from the generator: " + line[:200])
+            if sc.stamp:                 # op 4: the last number is the stamp the driver planted
+                res, last = res.rsplit(None, 1)
+                sc.stamp_abs = int(last)
+                o1[len(parsed)] = res
             parsed.append(parse_steps(res))
         if model:
             idx = [i for i, p in enumerate(parsed) if p is not None]
@@ -536,6 +671,32 @@ def run(c, rng, thorough, impl, model):
     c.cov["exhaustive_parts"].append("no-comment board, link entry, marked-and-solved (6 file modes) and 5 near-miss file modes x 3 types x 4 scores")
     c.sample({"op": "Recommend refused", "result": o[0][:60]})
 
+    # ---------------------------------------------------------------- 3b. the stamp already in the entry vs. the clock
+    # The addressed entry carries a Modified stamp that is earlier than, equal to or LATER than the clock reading at the comment
+    # (clock stepped back after the last post/edit/comment; entry stamped by a host whose clock runs ahead): absolute stamps
+    # (1970, the planted past, 2033, the last second of int32) and stamps relative to the driver's clock when it plants the board
+    # (an hour ago ... one second ahead ... a year ahead). Nothing in the verdict depends on the clock: on the unchanged tree the
+    # outcome of a comment does not depend on the stamp at all.
+    scs = []
+    stamps = [(0, 0), (0, 1), (0, 1607200099), (0, 2000000000), (0, 0x7FFFFFFF), (0, -1), (0, -0x80000000),
+              (1, -86400), (1, -3600), (1, -1), (1, 0), (1, 1), (1, 2), (1, 5), (1, 60), (1, 3600), (1, 86400), (1, 31536000)]
+    for stamp in stamps:
+        for ct in (1, 2, 3):
+            for score in (rng.choice([0, 7, -31]), 99 if ct == 1 else -99, 100, -100):
+                flags = rng.choice([(0, 0), (1, 0), (0, 1), (1, 1)])
+                sc = Scenario(rng, 3, rng.randrange(3), score, align=flags[0], iplog=flags[1], uid=rng.choice([b"A1", b"SYSOP", b"abcdefghijkl"]), stamp=stamp)
+                sc.steps = [(ct, text(40))] + [(rng.choice([1, 2, 3]), text(40)) for _ in range(rng.randrange(0, 3))]
+                scs.append(sc)
+    for _ in range(200 if thorough else 20):
+        sc = Scenario(rng, 5, rng.randrange(5), rng.randrange(-100, 101), filemode=rng.choice([0, 0, 2, 16, 0x12]), align=rng.choice([0, 1]), iplog=rng.choice([0, 1]),
+                      stamp=rng.choice([(1, rng.randrange(1, 100000)), (1, -rng.randrange(0, 100000)), (0, rng.randrange(-2 ** 31, 2 ** 31))]))
+        sc.steps = [(rng.choice([1, 2, 3]), text()) for _ in range(rng.randrange(1, 12))]
+        scs.append(sc)
+    o = drive(scs, "entries stamped before, at and ahead of the clock")
+    c.cov["exhaustive_parts"].append("Modified stamp of the addressed entry {0, 1, -1, int32 min, 2020, 2033, int32 max; clock -1 day, -1 h, -1 s, +0, +1 s, +2 s, +5 s, +1 min, +1 h, +1 day, +1 year} "
+                                     "x types {push, boo, arrow} x scores {mid, next to the limit, +100, -100}: %d planted boards" % (len(stamps) * 12))
+    c.sample({"op": "Recommend on an entry stamped ahead of the clock", "stamp": scs[-30].stamp, "planted": scs[-30].stamp_abs, "result": o[-30][:160]})
+
     # ---------------------------------------------------------------- 4. board sessions: several articles, several commenters, all attributes
     def drive_boards(bss, label):
         l2 = [bs.line(2) for bs in bss]
@@ -573,7 +734,8 @@ def run(c, rng, thorough, impl, model):
         for pause in (255, 60, 1, 0):
             users = rng.sample(people[:5], 3)
             bs = BoardSession(rng, 5, [(0, rng.choice([0, -3, 41]), 0, False), (2, rng.choice([98, -99, 7]), rng.choice([0, 2, 16]), False), (4, 99, 0, False)],
-                              flags, pause, users, ip=rng.choice([b"127.0.0.1", b"255.255.255.255", b"8.8.8.8"]))
+                              flags, pause, users, ip=rng.choice([b"127.0.0.1", b"255.255.255.255", b"8.8.8.8"]),
+                              stamps={rng.choice([0, 2, 4]): rng.choice([2000000000, 0x7FFFFFFF])})     # one article's entry is stamped ahead of every clock reading
             if flags[2]:
                 bs.steps = [(0, 0, 1, b"p"), (1, 1, 2, b"b"), (2, 2, 3, b"a"), (0, 0, 1, b"p")]
             else:
@@ -597,12 +759,41 @@ def run(c, rng, thorough, impl, model):
         users = rng.sample(people, rng.choice([2, 3, 4]))
         bs = BoardSession(rng, n, targets, flags, rng.choice([0, 1, 2, 5, 30, 60, 255, rng.randrange(256)]), users,
                           ip=rng.choice([b"127.0.0.1", b"255.255.255.255", b"8.8.8.8"]),
-                          arts=[rng.choice([b"short\n", b"\xa7@\xaa\xcc: SYSOP\n\nbody\n--\n", bytes(rng.randrange(256) for _ in range(300)) + b"\n"]) for _ in range(k)])
+                          arts=[rng.choice([b"short\n", b"\xa7@\xaa\xcc: SYSOP\n\nbody\n--\n", bytes(rng.randrange(256) for _ in range(300)) + b"\n"]) for _ in range(k)],
+                          stamps={i: rng.choice([0, 1, 2000000000, 0x7FFFFFFF, -1, rng.randrange(1700000000, 2 ** 31)]) for i in where if rng.random() < 0.5})
         bias = rng.choice([(8, 1, 1), (3, 3, 2), (1, 6, 1)])
         bs.steps = [(rng.randrange(len(users)), rng.randrange(k), rng.choices([1, 2, 3, 0, 4], bias + (0.2, 0.2))[0], text(60)) for _ in range(rng.randrange(2, 41))]
         bss.append(bs)
     o = drive_boards(bss, "board sessions: random histories")
     c.sample({"op": "board session digest (random)", "attrs": bss[0].flags, "pause": bss[0].pause, "steps": len(bss[0].steps), "result": o[0][:160]})
+
+    # ---------------------------------------------------------------- 5. two boards of one process holding the same article file name
+    # WhoAmI and SYSOP are planted with overlapping sets of entries: the same file name sits at different positions of the two indexes
+    # (M.<second>.A.<hex> names collide across boards; copied boards). Comments alternate between the boards back to back in one driver
+    # process; every one must land in the article of that name of ITS board and move that entry only. No model for this op: the
+    # look-up is C06's subject; this is validation of the property's frame ("changes only that article's index entry") across boards.
+    tbs = []
+    layouts = [([0, 1, 2], [1, 2, 3]), ([0, 1, 2, 3], [2, 3]), ([1, 2], [0, 1, 2, 4]), ([0, 2, 4], [1, 2, 3, 4]), ([3], [0, 1, 2, 3]), ([0, 1, 2, 3, 4], [4])]
+    for la in layouts + [rng.choice(layouts) for _ in range(60 if thorough else 6)]:
+        tb = TwoBoards(rng, la, uid=rng.choice([b"A1", b"SYSOP", b"abcdefghijkl"]))
+        common = [i for i in la[0] if i in la[1]]
+        for i in common:              # the same name, board after board
+            for b in (0, 1, 0, 1):
+                tb.steps.append((b, la[b].index(i), rng.choice([1, 1, 2, 3]), text(30)))
+        tb.steps += [(b, rng.randrange(len(la[b])), rng.choice([1, 2, 3]), text(30)) for b in [rng.randrange(2) for _ in range(rng.randrange(4, 16))]]
+        tbs.append(tb)
+    lines = [tb.line() for tb in tbs]
+    o5 = vf.run_impl(impl, "C10", lines, deadline_ms=120000)
+    for tb, line, res in zip(tbs, lines, o5):
+        st = res.split()[0]
+        if st in ("1", "2"):
+            c.violation("crash" if st == "1" else "hang", "two boards: ptt.Recommend %s" % ("panics" if st == "1" else "hangs"), {"cases": [line], "got": res[:100]})
+            continue
+        if st != "0":
+            raise SystemExit("C10: bad case from the generator: " + line[:200])
+        judge_two(c, impl, tb, split_two(res, len(tb.steps)), "two boards holding the same article file name")
+    c.count(sum(len(tb.steps) for tb in tbs), "two boards holding the same article file name")
+    c.sample({"op": "two boards digest", "layout": tbs[0].idx, "steps": len(tbs[0].steps), "result": o5[0][:160]})
 
 
 if __name__ == "__main__":
